@@ -171,7 +171,10 @@ def _parseInventoryLine(line: str) -> Tuple[str, str, int, str, str]:
 
     name = ' '.join(parts[: prio_idx - 1])
     typ = parts[prio_idx - 1]
-    location = parts[prio_idx + 1]
+    try:
+        location = parts[prio_idx + 1]
+    except IndexError:
+        raise ValueError("Could not find location column")
     display = ' '.join(parts[prio_idx + 2 :])
     if not display:
         raise ValueError("Display name column cannot be empty")
